@@ -104,6 +104,7 @@ def fragEB (env : Env) : Expr → Bool
   | .key n => plainThe n && isObjectless n && simpleIsKey n
   | .movie n => plainThe n && isObjectless n && simpleIsMovie n
   | .oprop n o => plainThe n && !isObjectless n && headNotObj (prE o) && fragEB env o
+  | .chunk _ a b d => fragEB env a && fragEB env b && fragEB env d
   | _ => false
 def fragLB (env : Env) : List Expr → Bool
   | [] => true
@@ -159,7 +160,10 @@ theorem fragEB_spec (env : Env) : ∀ (e : Expr), fragEB env e = true → Spec.F
     simp only [fragEB, Bool.and_eq_true, Bool.not_eq_true'] at h
     simp only [Spec.Frag]
     exact ⟨plainThe_spec n h.1.1.1, h.1.1.2, h.1.2, fragEB_spec env o h.2⟩
-  | .chunk _ _ _ _, h => by simp [fragEB] at h
+  | .chunk k a b d, h => by
+    simp only [fragEB, Bool.and_eq_true] at h
+    simp only [Spec.Frag]
+    exact ⟨fragEB_spec env a h.1.1, fragEB_spec env b h.1.2, fragEB_spec env d h.2⟩
 theorem fragLB_spec (env : Env) : ∀ (es : List Expr), fragLB env es = true → Spec.FragL env es
   | [], _ => by simp [Spec.FragL]
   | e :: es, h => by
